@@ -20,6 +20,8 @@ class ProgressTracker(ABC):
         self.start_time = monotonic_ns()
         self.problem = problem
         self.evaluator = evaluator if evaluator is not None else SequentialEvaluator()
+        # an evaluator may have served an earlier search: this tracker counts the evaluations made since it was built
+        self.evaluations_before = self.evaluator.number_of_evaluations()
         self.recorders = recorders if recorders is not None else []
 
     def get_problem(self) -> Problem:
@@ -27,7 +29,7 @@ class ProgressTracker(ABC):
 
     def get_number_evaluations(self) -> int:
         """The cumulative number of evaluations performed."""
-        return self.evaluator.number_of_evaluations()
+        return self.evaluator.number_of_evaluations() - getattr(self, "evaluations_before", 0)
 
     def get_elapsed_time(self) -> float:
         """The elapsed time since the start in seconds."""
